@@ -299,13 +299,14 @@ class Sub(object):
     parallel  : False to run in the parent process (e.g. for checks that manage threads)
     """
 
-    def __init__(self, name, gen, evalf, chunk=200, floor=1, parallel=True, doc='', timeout=0, guard=False, poison=True, envs=0):
+    def __init__(self, name, gen, evalf, chunk=200, floor=1, parallel=True, doc='', timeout=0, guard=False, poison=True, envs=0, fresh=False):
         self.name = name
         if envs:
             # every envs-th case is evaluated a second time in an alternative process environment (gpmc.envs)
             from gpmc import envs as _envs
             gen = (lambda g: (lambda tier, seed: _envs.expand(g(tier, seed), envs)))(gen)
         self.envs = envs
+        self.fresh = fresh          # every work unit in a newly forked copy of the parent (which has only imported the library)
         self.gen = gen
         self.evalf = evalf
         self.chunk = chunk
@@ -451,18 +452,31 @@ def run_check(mod, tier, seed, jobs):
         mod.prepare(tier, seed)
     pool = None
     try:
-        for si, sub in enumerate(mod.SUBCHECKS):
+        # sub-checks that need workers forked from a process that has only IMPORTED the library run first: sub-checks run in
+        # this process (parallel=False) and their poison calls would otherwise have used the library here already
+        order = sorted(range(len(mod.SUBCHECKS)), key=lambda i: (not getattr(mod.SUBCHECKS[i], 'fresh', False), i))
+        for si in order:
+            sub = mod.SUBCHECKS[si]
             ts = time.time()
             before = (total.cases, total.transitions, len(total.states), len(total.nontrivial))
             gen = sub.gen(tier, seed)
             if sub.parallel and jobs > 1:
-                if pool is None:
-                    pool = mp.get_context('fork').Pool(jobs)
+                if getattr(sub, 'fresh', False):
+                    use = mp.get_context('fork').Pool(jobs, maxtasksperchild=1)
+                else:
+                    if pool is None:
+                        pool = mp.get_context('fork').Pool(jobs)
+                    use = pool
                 work = ((si, block) for block in _chunks(gen, sub.chunk))
-                for res in pool.imap(_work, work, chunksize=1):
-                    if 'error' in res:
-                        raise HarnessError(res['error'])
-                    total.merge(res)
+                try:
+                    for res in use.imap(_work, work, chunksize=1):
+                        if 'error' in res:
+                            raise HarnessError(res['error'])
+                        total.merge(res)
+                finally:
+                    if use is not pool:
+                        use.close()
+                        use.join()
             else:
                 for case in gen:
                     eval_one(sub, case, total)
